@@ -25,7 +25,7 @@ PROP = "C07"
 LEVEL = "fault_enumeration"
 FLAVOUR = "plain"
 FLAVOURS = ["plain", "san"]
-TIERS = {"quick": (16000, 170), "thorough": (1000000, 3300)}
+TIERS = {"quick": (14000, 170), "thorough": (900000, 3300)}
 RULE_TEXT = ("one run = (A) one generated chart with one planted failing element (kind and position drawn from every executable block: onentry, onexit, transition, "
              "initial/history transition, nested <if>, <data>) x one event history, refined against the reference model that knows the failing element, or "
              "(B) one seeded XML mutation of a generated chart loaded and stepped under crash containment; a third of the runs use the ASan+UBSan build; "
